@@ -51,3 +51,81 @@ Fixpoint subseq_b {A} (eqb : A -> A -> bool) (l1 l2 : list A) : bool :=
 
 (* the requests the peers saw, in order, are a subsequence of the commands in issue order *)
 Definition fifo_ok (seen issued : list body) : bool := subseq_b body_eqb seen issued.
+
+(* ---- clauses judged on an observed event sequence alone (trace scanners) --------------------
+   Each is a small automaton over the monitor's event alphabet, independent of the monitor's
+   state; `… _ok es = true` is proved for every trace the monitor accepts (Client/ServiceScan.v),
+   and the extracted scanners are run by the model runner on the implementation's traces. *)
+
+Fixpoint scan {S : Type} (f : S -> event -> option S) (s : S) (es : list event) : bool :=
+  match es with
+  | [] => true
+  | e :: es' => match f s e with Some s' => scan f s' es' | None => false end
+  end.
+
+(* events produced by the supervisor goroutine *)
+Definition is_sup_event (e : event) : bool :=
+  match e with
+  | EBackoff | ENext | ESupExit | EConnFail _ | EOnline _ | EResubSend _ _ _ | EResubFail _
+  | EDispSend _ _ _ | EDispErr _ | EDisconnect | EOffline => true
+  | _ => false
+  end.
+
+(* lifecycle: Start returns true exactly when no supervisor is running and none is being stopped, Stop returns true
+   exactly when one is running; one Start/Stop at a time; the supervisor is active only between a Start that
+   returned (or will return) true and the return of the Stop that ends it: "after Stop the supervisor has ended" *)
+Inductive lcall := LStart (ok : bool) | LStop (ok : bool).
+Record lstate := LS { l_run : bool; l_call : option lcall }.
+
+Definition life_step (l : lstate) (e : event) : option lstate :=
+  match e with
+  | EStartCall =>
+    match l_call l with
+    | None => if l_run l then Some (LS true (Some (LStart false))) else Some (LS true (Some (LStart true)))
+    | Some _ => None
+    end
+  | EStartRet ok =>
+    match l_call l with
+    | Some (LStart ok') => if Bool.eqb ok ok' then Some (LS (l_run l) None) else None
+    | _ => None
+    end
+  | EStopCall _ =>
+    match l_call l with
+    | None => Some (LS (l_run l) (Some (LStop (l_run l))))
+    | Some _ => None
+    end
+  | EStopRet ok =>
+    match l_call l with
+    | Some (LStop ok') => if Bool.eqb ok ok' then Some (LS (if ok then false else l_run l) None) else None
+    | _ => None
+    end
+  | _ => if is_sup_event e then (if l_run l then Some l else None) else Some l
+  end.
+
+Definition life_ok (es : list event) : bool := scan life_step (LS false None) es.
+
+(* dispatch gate: a command is handed to the client only by a dispatcher that runs on a connection that came
+   online and whose resubscribe request (if one was made) has been acknowledged; after a failed dispatch, a
+   Disconnect, or the end of the connection nothing is dispatched until the next connection is online *)
+Inductive gstate :=
+| G0                (* no connection online *)
+| G1                (* online, no resubscribe request made (yet) *)
+| G2 (id : N)       (* resubscribe request id handed to the connection, not acknowledged *)
+| G3                (* dispatcher running *)
+| G4                (* a command's send failed, error report pending *)
+| G5.               (* dispatcher over on this connection *)
+
+Definition gate_step (g : gstate) (e : event) : option gstate :=
+  match e with
+  | EOnline _ => Some G1
+  | EResubSend id _ ok => Some (if ok then G2 id else G5)
+  | EAck id => Some (match g with G2 id' => if id =? id' then G3 else g | _ => g end)
+  | EAckReject id => Some (match g with G2 id' => if id =? id' then G5 else g | _ => g end)
+  | EDispSend _ _ ok => match g with G1 | G3 => Some (if ok then G3 else G4) | _ => None end
+  | EDispErr _ => match g with G1 | G3 | G4 => Some G5 | _ => None end
+  | EDisconnect => Some G5
+  | EOffline | EConnFail _ | EResubFail _ | ENext | EBackoff | ESupExit => Some G0
+  | _ => Some g
+  end.
+
+Definition gate_ok (es : list event) : bool := scan gate_step G0 es.
